@@ -190,6 +190,43 @@ class Run:
                 self.reboot_until = max(getattr(self, 'reboot_until', 0.0), w.now + rec['down'])
         elif kind == 'dup':
             rec['res'] = self.duplicate_some_process()
+        elif kind == 'dup_unmanaged':
+            # a process of an unmanaged application started directly on two instances: not a conflict for Supvisors
+            names = [ns for ns in self.procs if not self.model[ns.split(':')[0]]['managed']]
+            rng.shuffle(names)
+            rec['res'] = []
+            for ns in names:
+                holders = [i for i in w.live() if i.sd.options.mood >= 1 and ns in i.running_truth()]
+                if len(holders) >= 2:
+                    for inst in rng.sample(holders, 2):
+                        if inst.running_truth()[ns] not in RUNNING_STATES:
+                            rec['res'].append((ns, inst.nick, w.user_rpc(inst.nick, 'supervisor.startProcess', ns,
+                                                                         False)[0]))
+                    break
+        elif kind == 'multi_dup':
+            # several simultaneous conflicts, preferably inside one application
+            first = self.duplicate_some_process()
+            rec['res'] = [first]
+            if first:
+                app = first[0].split(':')[0]
+                for _ in range(rng.randint(1, 3)):
+                    w.run_for(rng.choice([0.0, 0.0, 0.01, 0.3]))
+                    rec['res'].append(self.duplicate_some_process(app=app if rng.random() < 0.8 else None,
+                                                                  exclude={r[0] for r in rec['res'] if r}))
+        elif kind == 'partition':
+            if len(live) > 1:
+                side = rng.sample(live, rng.randint(1, len(live) - 1))
+                rest = [s['nick'] for s in w.specs if s['nick'] not in side]
+                rec['side'] = sorted(side)
+                rec['duration'] = round(rng.uniform(20.0, 45.0), 2)
+                w.partition(side, rest)
+
+                def heal(side=side, rest=rest):
+                    for a in side:
+                        for b in rest:
+                            w.heal_link(a, b)
+                w.at(w.now + rec['duration'], heal)
+                self.reboot_until = max(getattr(self, 'reboot_until', 0.0), w.now + rec['duration'])
         elif kind == 'burst':
             # a burst of process activity: several direct Supervisor starts / stops on random instances
             for _ in range(rng.randint(2, 6)):
@@ -220,12 +257,13 @@ class Run:
         inst._schedule_death(pid, w.now, 9)
         return inst.procs[pid]['namespec']
 
-    def duplicate_some_process(self):
+    def duplicate_some_process(self, app=None, exclude=()):
         w = self.world
         running = []
         for inst in w.live():
             for namespec, state in inst.running_truth().items():
-                if state in RUNNING_STATES:
+                if state in RUNNING_STATES and namespec not in exclude and \
+                        (app is None or namespec.split(':')[0] == app):
                     running.append((inst.nick, namespec))
         self.rng.shuffle(running)
         for nick, namespec in running:
